@@ -196,6 +196,10 @@ pub struct Iso<'a> {
     /// candidates (unreferenced duplicates): offset / index judgements that
     /// depend on the choice must be skipped for them
     pub ambiguous_funcs: std::collections::HashSet<u32>,
+    /// likewise for the other index spaces ("global", "table", "memory",
+    /// "element", "data"): input indices that were one of several fitting
+    /// preimages of an output entity nothing else identified (GC mode)
+    pub ambiguous: std::collections::HashSet<(&'static str, u32)>,
     leftover_funcs: Vec<u32>,
 }
 
@@ -222,6 +226,7 @@ impl<'a> Iso<'a> {
             ops_compared: 0,
             strip_markers: false,
             ambiguous_funcs: Default::default(),
+            ambiguous: Default::default(),
             leftover_funcs: vec![],
         }
     }
@@ -1033,7 +1038,11 @@ impl<'a> Iso<'a> {
             if self.elems.rev.contains_key(&y) {
                 continue;
             }
-            match self.seg_candidates(true, y).first().copied() {
+            let cands = self.seg_candidates(true, y);
+            if cands.len() > 1 {
+                self.ambiguous.extend(cands.iter().map(|x| ("element", *x)));
+            }
+            match cands.first().copied() {
                 Some(x) => {
                     self.bind_elem(x, y, Area::Module, "gc element order")?;
                     self.drain()?;
@@ -1051,7 +1060,11 @@ impl<'a> Iso<'a> {
             if self.datas.rev.contains_key(&y) {
                 continue;
             }
-            match self.seg_candidates(false, y).first().copied() {
+            let cands = self.seg_candidates(false, y);
+            if cands.len() > 1 {
+                self.ambiguous.extend(cands.iter().map(|x| ("data", *x)));
+            }
+            match cands.first().copied() {
                 Some(x) => {
                     self.bind_data(x, y, Area::Module, "gc data order")?;
                     self.drain()?;
@@ -1106,8 +1119,13 @@ impl<'a> Iso<'a> {
         }
         for y in 0..b.n_globals() {
             if !self.globals.rev.contains_key(&y) {
-                let cand = (0..a.n_globals())
-                    .find(|x| !self.globals.fwd.contains_key(x) && self.try_pair(|s| s.bind_global(*x, y, Area::Module, "gc leftover global")));
+                let cands: Vec<u32> = (0..a.n_globals())
+                    .filter(|x| !self.globals.fwd.contains_key(x) && self.try_pair(|s| s.bind_global(*x, y, Area::Module, "gc leftover global")))
+                    .collect();
+                if cands.len() > 1 {
+                    self.ambiguous.extend(cands.iter().map(|x| ("global", *x)));
+                }
+                let cand = cands.first().copied();
                 match cand {
                     Some(x) => self.bind_global(x, y, Area::Module, "gc leftover global")?,
                     None => return Err(mm(Area::Module, "gc:global-without-preimage", format!("output global {}", y))),
@@ -1116,8 +1134,13 @@ impl<'a> Iso<'a> {
         }
         for y in 0..b.n_tables() {
             if !self.tables.rev.contains_key(&y) {
-                let cand = (0..a.n_tables())
-                    .find(|x| !self.tables.fwd.contains_key(x) && self.try_pair(|s| s.bind_table(*x, y, Area::Module, "gc leftover table")));
+                let cands: Vec<u32> = (0..a.n_tables())
+                    .filter(|x| !self.tables.fwd.contains_key(x) && self.try_pair(|s| s.bind_table(*x, y, Area::Module, "gc leftover table")))
+                    .collect();
+                if cands.len() > 1 {
+                    self.ambiguous.extend(cands.iter().map(|x| ("table", *x)));
+                }
+                let cand = cands.first().copied();
                 match cand {
                     Some(x) => self.bind_table(x, y, Area::Module, "gc leftover table")?,
                     None => return Err(mm(Area::Module, "gc:table-without-preimage", format!("output table {}", y))),
@@ -1126,8 +1149,13 @@ impl<'a> Iso<'a> {
         }
         for y in 0..b.n_mems() {
             if !self.mems.rev.contains_key(&y) {
-                let cand = (0..a.n_mems())
-                    .find(|x| !self.mems.fwd.contains_key(x) && self.try_pair(|s| s.bind_mem(*x, y, Area::Module, "gc leftover memory")));
+                let cands: Vec<u32> = (0..a.n_mems())
+                    .filter(|x| !self.mems.fwd.contains_key(x) && self.try_pair(|s| s.bind_mem(*x, y, Area::Module, "gc leftover memory")))
+                    .collect();
+                if cands.len() > 1 {
+                    self.ambiguous.extend(cands.iter().map(|x| ("memory", *x)));
+                }
+                let cand = cands.first().copied();
                 match cand {
                     Some(x) => self.bind_mem(x, y, Area::Module, "gc leftover memory")?,
                     None => return Err(mm(Area::Module, "gc:memory-without-preimage", format!("output memory {}", y))),
